@@ -49,6 +49,6 @@ for (name, lemma), ty in zip(theorems, blocks):
     body += "Theorem %s :\n  %s.\nProof. exact @%s. Qed.\nPrint Assumptions %s.\n\n" % (name, ty.replace("\n     ", "\n"), lemma, name)
 body += "\n".join(raw) + "\n"
 open(os.path.join(root, "props", prop + ".v"), "w").write(body)
-r = subprocess.run("cd %s && coqc -Q theories MW -Q props MWP props/%s.v" % (root, prop), shell=True, stdout=subprocess.PIPE, stderr=subprocess.STDOUT, text=True)
+r = subprocess.run("cd %s && timeout 900 coqc -Q theories MW -Q props MWP props/%s.v" % (root, prop), shell=True, stdout=subprocess.PIPE, stderr=subprocess.STDOUT, text=True)
 print(prop, "rc", r.returncode, r.stdout.count("Closed under the global context"), "closed;", "Axioms" in r.stdout and "AXIOMS!" or "")
 if r.returncode: print(r.stdout[-2500:])
